@@ -106,6 +106,19 @@ def main():
         except Exception as e:
             rec['raised'] = type(e).__name__ + ': ' + str(e)[:100]
         out['trees'].append(rec)
+    # comparison chains: a op1 b op2 c is judged like its two neighbouring comparisons
+    out['chains'] = []
+    for op1, a, b, op2, c in data.get('chains', []):
+        head = 'a = %s\nb = %s\nc = %s\n' % (SAMPLES[a][0], SAMPLES[b][0], SAMPLES[c][0])
+        rec = []
+        for expr in ('a %s b' % SYMS[op1], 'b %s c' % SYMS[op2], 'a %s b %s c' % (SYMS[op1], SYMS[op2])):
+            try:
+                contextualize_report(head + 'r = ' + expr + '\n')
+                r = tifa_analysis()
+                rec.append(len(r.issues.get('incompatible_types', [])))
+            except Exception as e:
+                rec.append('raised ' + type(e).__name__)
+        out['chains'].append(rec)
     def enc_type(t):
         """the structure of a pedal type object (class names and element types) for the Coq model"""
         name = type(t).__name__
